@@ -79,6 +79,7 @@ private:
   }
   void AfterInsert(EntityUID target);
   void ResetDependants(EntityUID target);
+  void ResetItems(const SetOfEntities& items, EntityUID target);
 };
 
 } // namespace ccl::semantic
